@@ -56,6 +56,15 @@ pub struct Admissible {
     pub n_candidates: u32,
     /// number of distinct patterns among the candidates
     pub n_patterns: u32,
+    /// all candidates `(pattern index, end position)` with satisfied lookahead
+    pub cands: Vec<(u32, u32)>,
+}
+
+impl Admissible {
+    /// Is `(token_type, end)` some candidate (pattern matches, lookahead satisfied)?
+    pub fn is_candidate(&self, mode: &ModeSpec, token_type: usize, end: usize) -> bool {
+        self.cands.iter().any(|&(i, e)| e as usize == end && mode.patterns[i as usize].token_type == token_type)
+    }
 }
 
 /// Per (mode, character position) the admissible token, for one input.
@@ -121,6 +130,7 @@ pub fn admissible_at(mode: &ModeSpec, mats: &[(AtomMatrix, Option<AtomMatrix>)],
         ends,
         n_candidates: cands.len() as u32,
         n_patterns: pats.len() as u32,
+        cands: cands.iter().map(|c| (c.0 as u32, c.1 as u32)).collect(),
     })
 }
 
